@@ -57,8 +57,14 @@ var baseTime = time.Date(2020, 1, 2, 3, 4, 5, 0, time.UTC)
 
 func toObject(c Card, i int) carddav.AddressObject {
 	card := vcard.Card{}
-	for _, f := range c.Fields {
-		card.Add(f.Name, &vcard.Field{Value: f.Value})
+	for k, f := range c.Fields {
+		fld := &vcard.Field{Value: f.Value}
+		for _, pi := range c.Pref {
+			if pi == k {
+				fld.Params = vcard.Params{"PREF": {"1"}}
+			}
+		}
+		card.Add(f.Name, fld)
 	}
 	return carddav.AddressObject{Path: c.Path, ETag: c.ETag, ModTime: baseTime.Add(time.Duration(i) * time.Hour), ContentLength: int64(10 + i), Card: card}
 }
@@ -68,10 +74,10 @@ func flat(card vcard.Card) []Fld {
 	for k, fs := range card {
 		for _, f := range fs {
 			if f == nil {
-				l = append(l, Fld{k, "<nil>"})
+				l = append(l, Fld{Name: k, Value: "<nil>"})
 				continue
 			}
-			l = append(l, Fld{k, f.Value})
+			l = append(l, Fld{Name: k, Value: f.Value})
 		}
 	}
 	sort.SliceStable(l, func(i, j int) bool { return l[i].Name < l[j].Name })
@@ -262,7 +268,7 @@ var (
 func card1(vals ...string) Card {
 	c := Card{Path: "/c", ETag: "e", Fields: []Fld{{"VERSION", "4.0"}, {"FN", "x"}}}
 	for _, v := range vals {
-		c.Fields = append(c.Fields, Fld{"EMAIL", v})
+		c.Fields = append(c.Fields, Fld{Name: "EMAIL", Value: v})
 	}
 	return c
 }
@@ -409,6 +415,27 @@ func TestEnumerateLimitProjection(t *testing.T) {
 	rec.ExhaustiveSub("limits -1..n+1 over every match pattern of lists of 0-5 cards; projections over every subset of 5 property names x all-properties x VERSION present/absent x nil query")
 }
 
+// Engine E3b: lists far beyond any plausible preallocation or batch size.
+func TestLargeLists(t *testing.T) {
+	if vev.ReplayFile() != "" {
+		t.Skip()
+	}
+	for _, n := range []int{255, 256, 257, 600} {
+		var cards []Card
+		for i := 0; i < n; i++ {
+			v := "match"
+			if i%3 == 2 {
+				v = "other"
+			}
+			cards = append(cards, Card{Path: fmt.Sprintf("/c/%d", i), ETag: fmt.Sprintf("e%d", i), Fields: []Fld{{"VERSION", "4.0"}, {"FN", "n"}, {"EMAIL", v}}})
+		}
+		for _, lim := range []int{-1, 0, 1, 255, 256, 257, 300, n, n + 1, 1 << 20} {
+			c := Case{Mode: "filter", Q: Q{Limit: lim, PFs: []PF{{Name: "EMAIL", TMs: []TM{{Text: "match", Type: "equals"}}}}}, Cards: cards}
+			run(t, nil, c, "E3b/large")
+		}
+	}
+}
+
 // Engine E4: random larger cards and queries.
 func TestRandom(t *testing.T) {
 	if vev.ReplayFile() != "" {
@@ -463,10 +490,14 @@ func TestRandom(t *testing.T) {
 			c := Card{Path: fmt.Sprintf("/ab/%d.vcf", i), ETag: fmt.Sprintf("t%d", i), Fields: []Fld{{"VERSION", "4.0"}, {"FN", values.Draw(rt, "fn")}}}
 			n := rapid.IntRange(0, 4).Draw(rt, "nf")
 			for k := 0; k < n; k++ {
-				c.Fields = append(c.Fields, Fld{rapid.SampledFrom(names[:2]).Draw(rt, "fname") , values.Draw(rt, "fval")})
+				c.Fields = append(c.Fields, Fld{Name: rapid.SampledFrom(names[:2]).Draw(rt, "fname"), Value: values.Draw(rt, "fval")})
+			}
+			if len(c.Fields) > 3 && rapid.IntRange(0, 3).Draw(rt, "pref?") == 0 {
+				// a later instance marked as the preferred one
+				c.Pref = []int{rapid.IntRange(3, len(c.Fields)-1).Draw(rt, "pref")}
 			}
 			if rapid.Bool().Draw(rt, "xa") {
-				c.Fields = append(c.Fields, Fld{"X-A", values.Draw(rt, "xav")})
+				c.Fields = append(c.Fields, Fld{Name: "X-A", Value: values.Draw(rt, "xav")})
 			}
 			return c
 		})
